@@ -42,7 +42,9 @@ StoreAfter(k) ==
                       "assign_range", "assign_il", "elements_assign", "swap", "assign_moved_view",
                       "assign_rvalue_rotview", "assign_innerT", "assign_rvalue_innerT", "swap_same_layout",
                       \* source and destination: views of one allocation with interleaved addresses and disjoint elements
-                      "assign_interleaved"} -> SrcBase + PosOf(c)
+                      "assign_interleaved",
+                      \* the destination view itself is a temporary
+                      "assign_rdest_array", "assign_rdest_rotview", "assign_rdest_rvalue_rotview"} -> SrcBase + PosOf(c)
             \* fill takes the view's value_type: an element (D = 1) or a (D-1)-dimensional array
             [] k = "fill" -> FillBase + ((PosOf(c) - 1) % InnerN) + 1
             [] k = "std_fill_elements" -> FillBase
